@@ -84,3 +84,26 @@ Proof.
   - specialize (Cc _ L). specialize (Hmax _ A). unfold ltb in Cc. rewrite Hmax in Cc. discriminate.
 Qed.
 End ArgmaxBy.
+
+(* two lists whose pairwise comparisons agree have the same first maximum (even over different key types) *)
+Lemma argmax_by_congr K1 (leb1 : K1 -> K1 -> bool) K2 (leb2 : K2 -> K2 -> bool) d1 d2 l1 l2 :
+  (forall x, leb1 x x = true) -> (forall x y z, leb1 x y = true -> leb1 y z = true -> leb1 x z = true) ->
+  (forall x y, leb1 x y = true \/ leb1 y x = true) ->
+  (forall x, leb2 x x = true) -> (forall x y z, leb2 x y = true -> leb2 y z = true -> leb2 x z = true) ->
+  (forall x y, leb2 x y = true \/ leb2 y x = true) ->
+  length l1 = length l2 ->
+  (forall i j, i < length l1 -> j < length l1 -> leb1 (nth i l1 d1) (nth j l1 d1) = leb2 (nth i l2 d2) (nth j l2 d2)) ->
+  argmax_by K1 leb1 l1 = argmax_by K2 leb2 l2.
+Proof.
+  intros R1 T1 O1 R2 T2 O2 HL HC.
+  destruct l2 as [|v2 t2] eqn:E2.
+  - destruct l1; [reflexivity|discriminate].
+  - rewrite <- E2 in *. assert (Hne : l2 <> []) by (rewrite E2; discriminate).
+    destruct (argmax_by_spec K2 leb2 R2 T2 O2 d2 l2 Hne) as (A & F & P).
+    pose proof (Forall_nth_leb K2 leb2 d2 l2 _ F) as F'.
+    apply (argmax_by_unique K1 leb1 R1 T1 O1 d1).
+    + lia.
+    + intros k Hk. rewrite HC by lia. apply F'. lia.
+    + intros k Hk. specialize (P k Hk). unfold ltb in *. rewrite HC by lia. exact P.
+Qed.
+
